@@ -60,7 +60,9 @@ func strCarrier(s, kind, name string) (string, fhirpath.EvaluateOption) {
 		return model.QuoteStr(s), nil
 	case "fhir":
 		var v any
-		switch len(s) % 5 {
+		switch len(s) % 6 {
+		case 5:
+			v = &dtpb.Xhtml{Value: s}
 		case 0:
 			v = &dtpb.String{Value: s}
 		case 1:
